@@ -196,3 +196,81 @@ def bound_arg(ctx, fi, call, pos, name=None):
 
 def n_bound_args(call):
     return len(call.args) + sum(1 for k in call.keywords if k.arg is not None)
+
+
+def with_helpers(ctx, f, depth=2):
+    """f and the private helpers it delegates to: functions or methods of the
+    same module whose name starts with `_` (not dunder) and that f - or such a
+    helper - calls with an exactly resolved call.  Extracting part of a long
+    function into a helper must not hide that part from a rule that looks for
+    a construct "in f"."""
+    out, work = [f], [(f, 0)]
+    while work:
+        g, d = work.pop()
+        if d >= depth:
+            continue
+        for e in ctx.cg.out(g):
+            if e.is_ext or e.kind != 'call' or e.precision != 'exact':
+                continue
+            h = e.dst
+            if h.module is f.module and h not in out and h.name.startswith(
+                    '_') and not h.name.startswith('__') and not h.is_lambda:
+                out.append(h)
+                work.append((h, d + 1))
+    return out
+
+
+def nodes_with_helpers(ctx, f, depth=2):
+    """(function, node) over f and its private helpers."""
+    for g in with_helpers(ctx, f, depth):
+        for n in own_nodes(g):
+            yield g, n
+
+
+def template_of(node):
+    """(template, [argument expressions]) for the three spellings of string
+    formatting with a constant template - `'%s(%s)' % (a, b)`,
+    `'{}({})'.format(a, b)`, `f'{a}({b})'` - with every placeholder written
+    `{}`; None for anything else (conversions/format specs included)."""
+    import re as _re
+    if isinstance(node, ast.BinOp) and isinstance(node.op, ast.Mod) and \
+            isinstance(node.left, ast.Constant) and isinstance(
+            node.left.value, str):
+        t = node.left.value
+        if _re.search(r'%[^s%]', t):
+            return None
+        args = list(node.right.elts) if isinstance(node.right, ast.Tuple) \
+            else [node.right]
+        parts = _re.split(r'(%s|%%)', t)
+        out, n = '', 0
+        for p_ in parts:
+            if p_ == '%s':
+                out += '{}'
+                n += 1
+            elif p_ == '%%':
+                out += '%'
+            else:
+                out += p_.replace('{', '{{').replace('}', '}}')
+        return (out, args) if n == len(args) else None
+    if isinstance(node, ast.Call) and isinstance(node.func, ast.Attribute) and \
+            node.func.attr == 'format' and isinstance(
+            node.func.value, ast.Constant) and isinstance(
+            node.func.value.value, str) and not node.keywords:
+        t = node.func.value.value
+        if _re.search(r'\{[^{}]+\}', t):
+            return None
+        return t, list(node.args)
+    if isinstance(node, ast.JoinedStr):
+        out, args = '', []
+        for v in node.values:
+            if isinstance(v, ast.Constant):
+                out += str(v.value).replace('{', '{{').replace('}', '}}')
+            elif isinstance(v, ast.FormattedValue):
+                if v.conversion not in (-1, 115) or v.format_spec is not None:
+                    return None
+                out += '{}'
+                args.append(v.value)
+            else:
+                return None
+        return out, args
+    return None
